@@ -1009,12 +1009,18 @@ def extra(tier, replay=None):
     tinfo = json.loads(p.stdout.strip().splitlines()[-1])
     st3 = batch_check(chk, "Trace_TypeCk", chk.work / "typeck.ndjson", lambda rj, rec: {"why": rj["why"]}, lambda rj, rec: {"record": rec, "tlc": rj}, shards=8)
     chk.part("typeck", **tinfo)
+    # E4: analyze_for_serialization (signal order of the encoder and the writers) against Trace_SigOrder.tla
+    p = pv.pv(["sigorder", "--out", chk.work / "sigorder.ndjson", "--systems", 3000 if T else 300])
+    sinfo = json.loads(p.stdout.strip().splitlines()[-1])
+    st4 = batch_check(chk, "Trace_SigOrder", chk.work / "sigorder.ndjson", lambda rj, rec: {"why": rj["why"]}, lambda rj, rec: {"record": rec, "tlc": rj}, shards=10)
+    chk.part("sigorder", **sinfo)
     chk.cov["explanation"] = ("count_expr_uses on ExprGen shapes and random DAGs against the definition in spec/UseCount.tla; type_check / get_type on "
-                              "every operator x leaf kinds/widths x attribute descriptor of TypeCkGen.tla against the typing of Expr.tla")
-    chk.cov["evaluations"] = st["records"] + st3["records"]
-    chk.cov["distinct_nontrivial"] = st["records"] + st3["records"]
-    chk.cov["traces_validated_against_impl"] = st["records"] + st3["records"]
-    chk.sample({"records": st["records"], "typeck_records": st3["records"]})
+                              "every operator x leaf kinds/widths x attribute descriptor of TypeCkGen.tla against the typing of Expr.tla; analyze_for_serialization on "
+                              "generated systems against Trace_SigOrder.tla (inputs first, use counts, once, operands first, complete, minimal)")
+    chk.cov["evaluations"] = st["records"] + st3["records"] + st4["records"]
+    chk.cov["distinct_nontrivial"] = st["records"] + st3["records"] + st4["records"]
+    chk.cov["traces_validated_against_impl"] = st["records"] + st3["records"] + st4["records"]
+    chk.sample({"records": st["records"], "typeck_records": st3["records"], "sigorder_records": st4["records"]})
     rc = chk.finish()
     (pv.EVID / "EXTRA.json").unlink(missing_ok=True)  # not a listed property: no evidence file
     return rc
